@@ -50,7 +50,9 @@ void apply_faults(Rng &rf, Bytes &doc, int count, std::vector<std::string> &faul
     }
 }
 
+int g_deep_arrays = 0;      // set by deep_document: the longest run of directly nested arrays it produced (0 = not an array chain)
 Bytes deep_document(Rng &rd, int &root_kind, std::vector<std::string> &faults, int &need) {
+    g_deep_arrays = 0;
     // nesting-resource exhaustion (F6): arrays nested around the 255 limit, objects nested beyond max_depth
     Bytes doc;
     if (rd.chance(1, 3)) {
@@ -75,15 +77,21 @@ Bytes deep_document(Rng &rd, int &root_kind, std::vector<std::string> &faults, i
     }
     if (rd.chance(1, 2)) {
         int n = 250 + (int)rd.below(10);         // 250..259 nested arrays: 256+ must raise MAX_DEPTH_ARRAY
-        bool in_obj = rd.chance(1, 2);
-        root_kind = in_obj ? 0 : 1;
-        if (in_obj) { doc.push_back(0x40); doc.push_back(0x14); doc.push_back(0x01); doc.push_back('a'); }
+        // the chain sits directly in the root array, or in the root object, or 1..3 object levels further down (every object
+        // level keeps its own array counter); the innermost array may hold an object
+        int wrap = rd.chance(1, 2) ? 0 : 1 + (int)rd.below(4);
+        root_kind = wrap ? 0 : 1;
+        for (int i = 0; i < wrap; i++) { doc.push_back(0x40); doc.push_back(0x14); doc.push_back(0x01); doc.push_back('a'); }
         for (int i = 0; i < n; i++) doc.push_back(0x42);
-        if (rd.chance(1, 2)) { doc.push_back(0x10); doc.push_back(0x05); }
+        unsigned leaf = (unsigned)rd.below(4);
+        if (leaf == 1) { doc.push_back(0x10); doc.push_back(0x05); }
+        else if (leaf == 2) { doc.push_back(0x40); doc.push_back(0x41); }
+        else if (leaf == 3) { doc.push_back(0x40); doc.push_back(0x14); doc.push_back(0x01); doc.push_back('k'); doc.push_back(0x44); doc.push_back(0x41); doc.push_back(0x10); doc.push_back(0x05); }
         for (int i = 0; i < n; i++) doc.push_back(0x43);
-        if (in_obj) doc.push_back(0x41);
-        need = 1;
-        faults.push_back(fmt("F6:arrays=%d", n));
+        for (int i = 0; i < wrap; i++) doc.push_back(0x41);
+        need = std::max(1, wrap) + (leaf >= 2 ? 1 : 0);
+        g_deep_arrays = n;
+        faults.push_back(fmt("F6:arrays=%d in %d objects", n, wrap));
     } else {
         int n = 2 + (int)rd.below(rd.chance(1, 4) ? 260 : 12);
         if (rd.chance(1, 4)) { static const int T[] = {8, 16, 32, 64, 127, 128, 129, 254, 255, 256}; n = T[rd.below(10)]; }
@@ -158,7 +166,7 @@ Plan sloppy_generate(uint64_t base, const std::string &prop, uint64_t index, int
     Rng r(p.seed);
     Rng rd = r.fork("document"), rf = r.fork("faults"), ro = r.fork("operations");
     unsigned cls = (unsigned)rd.below(100);
-    std::vector<Bytes> names; int need = 1; bool valid = true;
+    std::vector<Bytes> names; int need = 1; bool valid = true; int deep_arrays = 0;
     if (cls < 8) {              // short raw strings, lengths 0..8 dense
         size_t n = rd.below(9);
         p.doc.resize(n);
@@ -176,6 +184,7 @@ Plan sloppy_generate(uint64_t base, const std::string &prop, uint64_t index, int
         p.faults.push_back("raw:random");
     } else if (cls < 20) {
         p.doc = deep_document(rd, p.root, p.faults, need);
+        deep_arrays = g_deep_arrays;
     } else {
         Node tree;
         p.doc = gen_document(rd, tier, p.root, &tree, valid, p.faults, &need);
@@ -191,6 +200,9 @@ Plan sloppy_generate(uint64_t base, const std::string &prop, uint64_t index, int
     if (dm < 15) p.max_depth = 1; else if (dm < 25) p.max_depth = 2; else if (dm < 55) p.max_depth = std::max(1, std::min(255, need + (int)rd.below(3) - 1));
     else if (dm < 65) p.max_depth = 255; else if (dm < 85) p.max_depth = std::min(255, need + (int)rd.below(3)); else p.max_depth = 1 + (int)rd.below(255);
     if (p.max_depth < need) p.faults.push_back("F6:max_depth_below_nesting");
+    // an array chain is well-formed by construction: what verify must say about it is known (the format allows 255 arrays per
+    // object level; objects must fit max_depth). 1 = must be rejected, 2 = must be accepted
+    if (deep_arrays) p.par["expect_verify"] = (deep_arrays <= 255 && need <= p.max_depth) ? 2 : (deep_arrays > 255 && need <= p.max_depth) ? 3 : 1;    // 3: rejected, and for exactly this reason: MAX_DEPTH_ARRAY
     p.prefill = rd.chance(9, 10) ? (rd.next() | 1) : 0;
     if (prop == "C09" || prop == "C16") p.prefill = rd.chance(1, 8) ? p.prefill : 0;
     // first call is always an init (nothing else is defined on an object that was never initialised)
@@ -251,6 +263,18 @@ Result sloppy_execute(const Plan &p, const ExecCtx &c) {
         if (o.err != 0 && !is_init && op.code != P_RESET) other_error = true;
     }
     ps.end_checks();
+    if (p.P("expect_verify") && !sink.failed()) {
+        Trace t2; Sink s2; s2.own = "~"; std::map<std::string, uint64_t> c2;
+        PSession q(t2, s2, c2);
+        q.setup(p.max_depth, 0, p.doc, p.root != 0);
+        Outcome a = q.call(mk(p.root ? P_INIT_ARR : P_INIT_OBJ, -1));
+        Outcome v; if (a.ret) v = q.call(mk(P_VERIFY));
+        bool accepted = a.ret && v.ret;
+        bump(r.cnt, accepted ? "probe.array_chain_accepted" : "probe.array_chain_rejected");
+        if (p.P("expect_verify") == 3 && !accepted && a.ret && v.err != BINSON_ERROR_MAX_DEPTH_ARRAY) sink.fail("C09.parser.error_not_raised", fmt("an array chain of more than 255 levels is rejected with %s: the MAX_DEPTH_ARRAY class is not raised where it is due", err_name(v.err)));
+        if (p.P("expect_verify") != 2 && accepted) sink.fail("C09.parser.error_not_raised", "verify accepts an array chain beyond the format's limits (more than 255 arrays in one object level, or objects beyond max_depth): the MAX_DEPTH error class is not raised");
+        if (p.P("expect_verify") == 2 && !accepted) sink.fail("C09.parser.error_without_cause", fmt("verify rejects a well-formed array chain within the limits (%s)", err_name(a.ret ? v.err : a.err)));
+    }
     r.clause = sink.clause; r.detail = sink.detail;
     r.trace_hash = tr.h; r.steps = ps.steps; r.calls = ps.calls;
     bump(r.cnt, "sloppy.post_error_calls", ps.post_error_calls);
